@@ -60,6 +60,25 @@ func vDrawRevision(k int) *vRev {
 	r.rev = verifrt.Int64(p + ".revision")
 	verifrt.Assume(r.rev >= 1 && r.rev < 1<<62)
 	os.Status.Revision = r.rev
+	if verifrt.Bound("slim", 0) == 1 {
+		// longer chains (history pruning): every revision confirmed paused, reporting an empty controllerOf, one object;
+		// only availability and lifecycle vary
+		r.available = verifrt.Bool(p + ".available")
+		avail := metav1.ConditionFalse
+		if r.available {
+			avail = metav1.ConditionTrue
+		}
+		r.pausedStatus = true
+		os.Status.Conditions = []metav1.Condition{{Type: corev1alpha1.ObjectSetAvailable, Status: avail}, {Type: corev1alpha1.ObjectSetPaused, Status: metav1.ConditionTrue}}
+		r.lifecycle = verifrt.StringFrom(p+".lifecycle", string(corev1alpha1.ObjectSetLifecycleStatePaused), string(corev1alpha1.ObjectSetLifecycleStateArchived))
+		os.Spec.LifecycleState = corev1alpha1.ObjectSetLifecycleState(r.lifecycle)
+		r.ctrlReported = true
+		os.Status.ControllerOf = []corev1alpha1.ControlledObjectReference{}
+		r.objects = []string{"A"}
+		os.Spec.Phases = []corev1alpha1.ObjectSetTemplatePhase{{Name: "p", Objects: []corev1alpha1.ObjectSetObject{vCM("A")}}}
+		r.os = os
+		return r
+	}
 	// Available / Paused conditions with arbitrary status (an absent condition behaves like Unknown here)
 	avail := verifrt.StringFrom(p+".Available", "True", "False", "Unknown")
 	r.available = avail == "True"
@@ -140,6 +159,10 @@ func VerifC08Archive() {
 	c.Outcome = func(call *verifk8s.Call) error {
 		if verifrt.Bool("apiError." + call.Verb + "." + call.Key.Name) {
 			return verifk8s.ErrOpaque
+		}
+		// a revision that a stale cache still lists may already be gone
+		if call.Verb == "delete" && verifrt.Bool("alreadyGone."+call.Key.Name) {
+			return verifk8s.NotFound(call.Key.Name)
 		}
 		return nil
 	}
